@@ -83,8 +83,9 @@ def match_paren(s, i):
 
 
 def normalize(s):
-    """drops the redundant inner pair of parentheses of `alias as (( SELECT ... ))` (trusted, mirrors
-    sqlparse.Normalize): the Select object of Sql.v prints a WITH body in exactly one pair"""
+    """drops the redundant inner pair of parentheses of `alias as (( SELECT ... ))` and the parentheses around the members of
+    `alias as ((S1) UNION ALL (S2))` (trusted, mirrors sqlparse.Normalize): the Select object of Sql.v prints a WITH body in
+    exactly one pair and a UNION ALL without parentheses around its members"""
     out = []
     i = 0
     while i < len(s):
@@ -102,6 +103,25 @@ def normalize(s):
                 out.append(" as (" + normalize(body) + ")")
                 i = oc + 1
                 continue
+            # alias as ((S1) UNION ALL (S2) ...): the members of the profile planners' unionAll wrapper are printed in parentheses
+            if oc > 0:
+                members, pos = [], outer + 1
+                while pos < oc and s[pos] == "(":
+                    c = match_paren(s, pos)
+                    m = s[pos + 1:c]
+                    if c < 0 or not (m.startswith(" SELECT ") or m.startswith("WITH ")):
+                        members = []
+                        break
+                    members.append(m)
+                    pos = c + 1
+                    if s.startswith(" UNION ALL ", pos):
+                        pos += len(" UNION ALL ")
+                        continue
+                    break
+                if len(members) >= 2 and pos == oc:
+                    out.append(" as (" + " UNION ALL ".join(normalize(m) for m in members) + ")")
+                    i = oc + 1
+                    continue
         out.append(s[i])
         i += 1
     return "".join(out)
@@ -699,6 +719,7 @@ def run_label_tie(ck, lines):
 # ---------------------------------------------------------------- Pyroscope: planner model vs recorded text
 SEL_AB = '[{| sl_name := "a"; sl_op := MEq; sl_val := "b" |}]'
 SEL_AC = '[{| sl_name := "a"; sl_op := MEq; sl_val := "c" |}]'
+SEL_X2 = '[{| sl_name := "job"; sl_op := MEq; sl_val := "x2" |}]'
 PROF_EPS = {  # endpoint -> request as a planner object of ScansProf.preq, per statement index
     "prof_label_names": ["RLabelNames [%s]" % SEL_AB],
     "prof_label_names_nomatch": ["RLabelNames []"],
@@ -709,6 +730,8 @@ PROF_EPS = {  # endpoint -> request as a planner object of ScansProf.preq, per s
     "prof_merge_profile": ["RMergeProfiles %s tid0" % SEL_AB],
     "prof_series": ['RSeries [%s] ["a"]' % SEL_AB],
     "prof_series_nomatch": ["RSeries [] []"],
+    "prof_series_two": ["RSeries [%s; %s] []" % (SEL_AB, SEL_X2)],             # UNION ALL of two time-series selects under a WITH alias
+    "prof_label_names_two": ["RLabelNames [%s; %s]" % (SEL_AB, SEL_X2)],        # UNION ALL of two selectors as the fingerprint set
     "prof_analyze": ["RAnalyze %s" % SEL_AB]}
 PROF_CLASSES = ("plain-noon", "cross-midnight", "first-half-hour", "sub-second", "month-end", "two-days", "random")
 
